@@ -54,5 +54,6 @@ fn main() {
             Err(_) => "P".to_string(),
         };
         writeln!(out, "id={} res={} {} {} sched_exhausted={} picks_used={}{}", c.id, res, hdr.borrow(), observations(), exhausted as u8, used, take_effin()).unwrap();
+        out.flush().unwrap();
     }
 }
